@@ -171,7 +171,8 @@ func init() {
  recursion depth large missing incorrect unchecked node defined receiver args field default zero pointer containing allowed base
  interface implement implements resolve use recursive call prove index slice array table both already inconsistent element
  unreachable suspendible inside outside io_bind io_limit shift division constant legacy octal syntax control character final
- backslash multi needs be le suffix ideal number integer bool boolean than short long names as it its if else break continue`) {
+ backslash multi needs be le suffix ideal number integer bool boolean than short long names as it its if else break continue
+ convert Wuffs C resume suspend local TODO support typed variables`) {
 		keepWords[w] = true
 	}
 }
